@@ -17,6 +17,12 @@
 (*          an existing regular file), "symlink_dangling" (to a missing    *)
 (*          file in an existing directory);                                *)
 (*          stdout: "none" (writable) or "unwritable"; run mode: "none"    *)
+(*   io     what the command's stdout and stderr (descriptors 1 and 2) are *)
+(*          when it starts: "fresh" (a new empty regular file each),       *)
+(*          "pipe", "append" (a regular file that already has content,     *)
+(*          opened for appending: `>> log`), "shared" (a regular file into *)
+(*          which the same open descriptor wrote before the command and    *)
+(*          writes again after it: `{ echo H; sylt ..; echo F; } > f`)     *)
 (*   req    --require M given, marg: how M is spelled on the command line  *)
 (*          (a name, a file name, a path, dotted names, a double suffix);  *)
 (*   nostd  --no-std given                                                 *)
@@ -24,7 +30,10 @@
 (*          (n = 1, 2 and around the 8-bit wrap of an exit status: 255,    *)
 (*          256, 257, 512), or rejected for errors without a source        *)
 (*          location (2 / 3 missing imports, one missing file imported     *)
-(*          from two files, a missing import plus a syntax error)          *)
+(*          from two files, a missing import plus a syntax error), or      *)
+(*          "chain": a multi-file project in which files WITH syntax       *)
+(*          errors import further files with syntax errors, files with     *)
+(*          conflict markers and files that do not exist, 2-4 levels deep  *)
 (*          | accepted but failing at run time (assert, unreachable, other *)
 (*          Lua error), and whether it uses the standard library;          *)
 (*          "longline": accepted, a string literal of > 8 KiB on one line; *)
@@ -56,20 +65,27 @@ VARIABLES cfg,       \* the configuration (never changes)
           errs,      \* the errors met so far: sequence over {"compile", "lua", "io"}
           printed,   \* the errors printed so far
           exit,      \* "none" | "zero" | "nonzero"
-          hist       \* names of the actions taken
+          hist,      \* names of the actions taken
+          streams    \* what the objects behind stdout / stderr hold, as a sequence of pieces in file order:
+                     \* [out |-> s, err |-> s], s over "earlier" (there before the command started), "command"
+                     \* (everything the command wrote to that descriptor), "later" (written after it ended)
 
-dvars == <<cfg, pc, fs, chunk, soprog, sorun, errs, printed, exit, hist>>
+dvars == <<cfg, pc, fs, chunk, soprog, sorun, errs, printed, exit, hist, streams>>
 
 ---------------------------------------------------------------------------
 (* The configuration space, index-addressed (mixed radix, least significant first) *)
-Sinks == <<[mode |-> "run", path |-> "none"], [mode |-> "stdout", path |-> "none"],
-           [mode |-> "file", path |-> "absent"], [mode |-> "file", path |-> "existing_shorter"],
-           [mode |-> "file", path |-> "missing_parent"], [mode |-> "file", path |-> "is_directory"],
-           [mode |-> "file", path |-> "unwritable_device"], [mode |-> "stdout", path |-> "unwritable"],
-           [mode |-> "file", path |-> "existing_equal"], [mode |-> "file", path |-> "existing_longer"],
-           [mode |-> "file", path |-> "dev_null"], [mode |-> "file", path |-> "dev_stdout"],
-           [mode |-> "file", path |-> "fifo"], [mode |-> "file", path |-> "symlink_file"],
-           [mode |-> "file", path |-> "symlink_dangling"]>>
+Sinks == <<[mode |-> "run", path |-> "none", io |-> "fresh"], [mode |-> "stdout", path |-> "none", io |-> "fresh"],
+           [mode |-> "file", path |-> "absent", io |-> "fresh"], [mode |-> "file", path |-> "existing_shorter", io |-> "fresh"],
+           [mode |-> "file", path |-> "missing_parent", io |-> "fresh"], [mode |-> "file", path |-> "is_directory", io |-> "fresh"],
+           [mode |-> "file", path |-> "unwritable_device", io |-> "fresh"], [mode |-> "stdout", path |-> "unwritable", io |-> "fresh"],
+           [mode |-> "file", path |-> "existing_equal", io |-> "fresh"], [mode |-> "file", path |-> "existing_longer", io |-> "fresh"],
+           [mode |-> "file", path |-> "dev_null", io |-> "fresh"], [mode |-> "file", path |-> "dev_stdout", io |-> "fresh"],
+           [mode |-> "file", path |-> "fifo", io |-> "fresh"], [mode |-> "file", path |-> "symlink_file", io |-> "fresh"],
+           [mode |-> "file", path |-> "symlink_dangling", io |-> "fresh"],
+           \* the kind of object stdout / stderr are (the sinks above: a fresh regular file, or what the path dictates)
+           [mode |-> "stdout", path |-> "none", io |-> "pipe"], [mode |-> "stdout", path |-> "none", io |-> "append"],
+           [mode |-> "stdout", path |-> "none", io |-> "shared"], [mode |-> "run", path |-> "none", io |-> "shared"]>>
+IoKinds == {"fresh", "pipe", "append", "shared"}
 ExistingPaths == {"existing_shorter", "existing_equal", "existing_longer"}
 \* writable, existing, not a regular file (or reached through a link)
 SpecialPaths == {"dev_null", "dev_stdout", "fifo", "symlink_file", "symlink_dangling"}
@@ -86,12 +102,20 @@ Progs == <<[k |-> "acc", n |-> 0, why |-> "none"],
            [k |-> "rt", n |-> 0, why |-> "luaerr"],
            [k |-> "acc", n |-> 0, why |-> "longline"], [k |-> "rt", n |-> 0, why |-> "longline_nl"],
            [k |-> "rej", n |-> 2, why |-> "missing2"], [k |-> "rej", n |-> 3, why |-> "missing3"],
-           [k |-> "rej", n |-> 1, why |-> "missing_shared"], [k |-> "rej", n |-> 2, why |-> "missing_plus_syntax"]>>
+           [k |-> "rej", n |-> 1, why |-> "missing_shared"], [k |-> "rej", n |-> 2, why |-> "missing_plus_syntax"],
+           [k |-> "rej", n |-> 3, why |-> "chain"]>>
 
 \* how many different imported files of a program of class c do not exist: each of them is an error (without a
 \* source location) that has to be printed - whatever else the compiler reports
 PlantedMissing(c) == CASE c.why = "missing2" -> 2 [] c.why = "missing3" -> 3
-                       [] c.why \in {"missing_shared", "missing_plus_syntax"} -> 1 [] OTHER -> 0
+                       [] c.why \in {"missing_shared", "missing_plus_syntax"} -> 1 [] c.why = "chain" -> 2 [] OTHER -> 0
+
+\* A rejected program of class c is *written* to have c.pn errors (for "chain": at least three files with an error of
+\* their own, each reachable only through a file that has errors itself).  Each of them has to be printed, whatever
+\* the compiler library's own error list says: the number of errors to print is at least this
+MinErrs(c) == IF c.pk = "rej" /\ c.pn > 1 THEN c.pn ELSE 1
+\* ... and at least so many different source files (existing or not) are named by the printed errors
+MinErrFiles(c) == IF c.pk # "rej" THEN 0 ELSE IF c.why = "chain" THEN 5 ELSE IF PlantedMissing(c) > 1 THEN PlantedMissing(c) ELSE 1
 
 \* the spellings of M in `--require M` (selector 0 = no --require)
 Mods == <<"c20mod", "c20mod.lua", "c20dir/c20mod.lua", "c20ext.helpers", "c20a.b.c", "c20mod.lua.lua">>
@@ -99,11 +123,11 @@ Mods == <<"c20mod", "c20mod.lua", "c20dir/c20mod.lua", "c20ext.helpers", "c20a.b
 NSinks == Len(Sinks)
 NProgs == Len(Progs)
 NReqs  == Len(Mods) + 1
-NBase  == NSinks * NReqs * 2 * NProgs * 2        \* 15 * 7 * 2 * 16 * 2 = 6720
+NBase  == NSinks * NReqs * 2 * NProgs * 2        \* 19 * 7 * 2 * 17 * 2 = 9044
 
 \* r \in 0..Len(Mods)
 MkCfg(s, r, nostd, p, std) ==
-    [mode |-> Sinks[s].mode, path |-> Sinks[s].path, req |-> (r > 0), marg |-> (IF r = 0 THEN "" ELSE Mods[r]), nostd |-> nostd,
+    [mode |-> Sinks[s].mode, path |-> Sinks[s].path, io |-> Sinks[s].io, req |-> (r > 0), marg |-> (IF r = 0 THEN "" ELSE Mods[r]), nostd |-> nostd,
      pk |-> Progs[p].k, pn |-> Progs[p].n, why |-> Progs[p].why, std |-> std]
 
 \* b \in 0..NBase-1
@@ -115,7 +139,7 @@ BaseIndex(s, r, nostd, p, std) ==
     (s - 1) + NSinks * (r + NReqs * ((IF nostd THEN 1 ELSE 0)
         + 2 * ((p - 1) + NProgs * (IF std THEN 1 ELSE 0))))
 
-SinkNo(c) == CHOOSE s \in 1..NSinks : Sinks[s].mode = c.mode /\ Sinks[s].path = c.path
+SinkNo(c) == CHOOSE s \in 1..NSinks : Sinks[s].mode = c.mode /\ Sinks[s].path = c.path /\ Sinks[s].io = c.io
 ProgNo(c) == CHOOSE p \in 1..NProgs : Progs[p].k = c.pk /\ Progs[p].n = c.pn /\ Progs[p].why = c.why
 ReqNo(c)  == IF ~c.req THEN 0 ELSE CHOOSE r \in 1..Len(Mods) : Mods[r] = c.marg
 IndexOfCfg(c) == BaseIndex(SinkNo(c), ReqNo(c), c.nostd, ProgNo(c), c.std)
@@ -138,6 +162,10 @@ UniverseWellFormed ==
     /\ \A c \in AllConfigs : /\ c.mode = "file" => c.path \notin {"none", "unwritable"}
                              /\ c.mode = "stdout" => c.path \in {"none", "unwritable"}
                              /\ c.mode = "run" => c.path = "none"
+                             /\ c.io \in IoKinds
+                             /\ c.io # "fresh" => (c.mode \in {"stdout", "run"} /\ c.path = "none")
+    /\ \A i, j \in 1..NSinks : (i # j) => Sinks[i] # Sinks[j]
+    /\ \A c \in AllConfigs : MinErrs(c) >= 1 /\ (c.pk = "rej" => MinErrFiles(c) >= 1) /\ PlantedMissing(c) <= MinErrFiles(c)
 
 ---------------------------------------------------------------------------
 (* What the property's words mean for a configuration (stated independently of the actions below) *)
@@ -168,10 +196,18 @@ InitFs(c) == CASE c.path \in {"none", "unwritable"} -> "none"
                [] c.path = "missing_parent" -> "noparent"
                [] c.path = "is_directory" -> "dir"
 
-\* the number of errors the compiler finds in a rejected program: at least one.  (c.pn is the number the
-\* program of that class is *written* to have; how many the compiler reports is the compiler's business and is
-\* bound by the recording in Trace_Driver - the contract only says that each of them is printed.)
-ErrCounts(c) == 1..MaxErrs
+\* the number of errors the compiler finds in a rejected program: at least one, and at least as many as the program
+\* of that class is *written* to have (c.pn, see MinErrs).  How many more the compiler reports is the compiler's
+\* business and is bound by the recording in Trace_Driver - the contract says that each of them is printed.
+\* (The generator model caps the count at MaxErrs.)
+ErrCounts(c) == {n \in 1..MaxErrs : n >= MinErrs(c) \/ n = MaxErrs}
+
+\* "writes to stdout" / "prints": the bytes are added to the stream the command was started with, behind whatever the
+\* object already holds, and whoever writes through the same descriptor afterwards continues behind them.
+Earlier(c) == IF c.io \in {"append", "shared"} THEN <<"earlier">> ELSE <<>>
+WrittenLater(c) == c.io = "shared"
+FullStream(c) == Earlier(c) \o <<"command">> \o (IF WrittenLater(c) THEN <<"later">> ELSE <<>>)
+IsPrefix(a, b) == Len(a) <= Len(b) /\ SubSeq(b, 1, Len(a)) = a
 
 \* The emitted program is a function of the program and of the two flags that may change it - not of the sink.
 \* (--require enters through the module it names: two spellings of the same module give the same program)
@@ -184,7 +220,7 @@ FlipNoStd(c) == [c EXCEPT !.nostd = ~c.nostd]
 \* Hyperproperties of the definitions above, checked by TLC over all configurations (ASSUME in MC_Driver)
 SinkIndependence ==
     \A c \in AllConfigs : \A t \in 1..NSinks :
-        Emitted(c) = Emitted([c EXCEPT !.mode = Sinks[t].mode, !.path = Sinks[t].path])
+        Emitted(c) = Emitted([c EXCEPT !.mode = Sinks[t].mode, !.path = Sinks[t].path, !.io = Sinks[t].io])
 NoStdNeutralForStdFree ==
     \A c \in AllConfigs : ~c.std => /\ Eff(c) = Eff(FlipNoStd(c))
                                    /\ Success(c) = Success(FlipNoStd(c))
@@ -198,8 +234,11 @@ Init == /\ cfg \in Universe
         /\ fs = InitFs(cfg)
         /\ chunk = "none" /\ soprog = "none" /\ sorun = "none"
         /\ errs = <<>> /\ printed = <<>> /\ exit = "none" /\ hist = <<>>
+        /\ streams = [out |-> Earlier(cfg), err |-> Earlier(cfg)]
 
+\* (only the actions that end the command - Exit and its defective variants - and Later change the stream objects)
 Step(name) == hist' = Append(hist, name) /\ UNCHANGED cfg
+              /\ IF name \in {"Exit", "Later", "BadReopenStdout", "BadExitZero"} THEN TRUE ELSE UNCHANGED streams
 
 ParseArgs == /\ pc = "start"
              /\ pc' = "compile"
@@ -283,8 +322,19 @@ PrintErrors == /\ pc = "print"
 Exit == /\ pc = "exit"
         /\ exit' = IF errs = <<>> THEN "zero" ELSE "nonzero"
         /\ pc' = "done"
+        \* by now everything the command wrote sits, as one piece, behind what the two objects held before
+        /\ streams' = [s \in DOMAIN streams |-> Append(streams[s], "command")]
         /\ Step("Exit")
         /\ UNCHANGED <<fs, chunk, soprog, sorun, errs, printed>>
+
+\* The environment, after the command has ended: the holder of the original descriptors goes on writing
+Later == /\ pc = "done" /\ WrittenLater(cfg)
+         /\ streams.out[Len(streams.out)] # "later"
+         /\ streams' = [s \in DOMAIN streams |-> Append(streams[s], "later")]
+         /\ Step("Later")
+         /\ UNCHANGED <<pc, fs, chunk, soprog, sorun, errs, printed, exit>>
+\* nothing more will happen
+Settled == pc = "done" /\ (WrittenLater(cfg) => streams.out[Len(streams.out)] = "later")
 
 (* Defective variants, enabled only in the negative-control model *)
 BadPartialWrite == /\ Faulty /\ pc = "wfile"
@@ -297,12 +347,21 @@ BadSilentExit == /\ Faulty /\ pc = "print"
                  /\ UNCHANGED <<fs, chunk, soprog, sorun, errs, printed, exit>>
 BadExitZero == /\ Faulty /\ pc = "exit" /\ errs # <<>>
                /\ exit' = "zero" /\ pc' = "done"
+               /\ streams' = [s \in DOMAIN streams |-> Append(streams[s], "command")]
                /\ Step("BadExitZero")
                /\ UNCHANGED <<fs, chunk, soprog, sorun, errs, printed>>
+\* `-o -` written through a second opening of the object behind stdout (truncating, own offset): what was there is gone
+BadReopenStdout == /\ Faulty /\ pc = "exit" /\ cfg.mode = "stdout"
+                   /\ exit' = IF errs = <<>> THEN "zero" ELSE "nonzero"
+                   /\ pc' = "done"
+                   /\ streams' = [out |-> <<"command">>, err |-> Append(streams.err, "command")]
+                   /\ Step("BadReopenStdout")
+                   /\ UNCHANGED <<fs, chunk, soprog, sorun, errs, printed>>
 
 Next == \/ ParseArgs \/ CompileOk \/ CompileErr \/ OutputFailEarly \/ RunOk \/ RunFail \/ WriteStdout
         \/ WriteStdoutFail \/ WriteStdoutLost \/ WriteFileOk \/ WriteFileFail \/ PrintErrors \/ Exit
-        \/ BadPartialWrite \/ BadSilentExit \/ BadExitZero
+        \/ Later
+        \/ BadPartialWrite \/ BadSilentExit \/ BadExitZero \/ BadReopenStdout
 
 Spec == Init /\ [][Next]_dvars
 
@@ -318,6 +377,8 @@ TypeOK == /\ cfg \in AllConfigs
           /\ sorun \in {"none", "all", "prefix"}
           /\ exit \in {"none", "zero", "nonzero"}
           /\ \A i \in 1..Len(errs) : errs[i] \in {"compile", "lua", "io"}
+          /\ DOMAIN streams = {"out", "err"}
+          /\ \A s \in DOMAIN streams : \A i \in 1..Len(streams[s]) : streams[s][i] \in {"earlier", "command", "later"}
 
 \* exit status 0 exactly when compilation (and, in run mode, execution) succeeded
 ExitIffSuccess == Done => (ExitFixed(cfg) => ((exit = "zero") <=> Success(cfg)))
@@ -342,13 +403,22 @@ RunOutput == Done => /\ (sorun # "none") => cfg.mode = "run"
                      /\ (cfg.mode = "run" /\ Eff(cfg) = "acc") => sorun = "all"
                      /\ (cfg.mode = "run" /\ Eff(cfg) = "rt") => sorun = "prefix"
 
-\* every behaviour terminates in at most 5 steps and is deterministic up to the error count
-Progress == (pc # "done") => ENABLED Next
-Bounded == Len(hist) <= 5
+\* stdout and stderr are streams: in every state each object holds what it held before the command, then (once the
+\* command has ended) the command's output as one piece, then what was written later - nothing is ever lost,
+\* overwritten or reordered, whatever kind of object the descriptor refers to
+StreamsAppendOnly == \A s \in DOMAIN streams :
+                        /\ IsPrefix(Earlier(cfg), streams[s])
+                        /\ IsPrefix(streams[s], FullStream(cfg))
+                        /\ Done => IsPrefix(Earlier(cfg) \o <<"command">>, streams[s])
+                        /\ Settled => streams[s] = FullStream(cfg)
 
-DriverContract == TypeOK /\ ExitIffSuccess /\ ErrorsPrinted /\ AllOrNothing /\ SinksWhole /\ RunOutput
+\* every behaviour terminates in at most 5 steps of the command (+ 1 of the environment) and is deterministic up to the error count
+Progress == (pc # "done") => ENABLED Next
+Bounded == Len(hist) <= 6
+
+DriverContract == TypeOK /\ ExitIffSuccess /\ ErrorsPrinted /\ AllOrNothing /\ SinksWhole /\ RunOutput /\ StreamsAppendOnly
 
 \* what the conformance side must observe for this behaviour
 Expectation == [exit |-> exit, fs |-> fs, chunk |-> chunk, soprog |-> soprog, sorun |-> sorun,
-                errs |-> errs, printed |-> printed, requires |-> RequireCount(cfg), module |-> ExpectedModule(cfg), steps |-> hist]
+                errs |-> errs, printed |-> printed, streams |-> streams, requires |-> RequireCount(cfg), module |-> ExpectedModule(cfg), steps |-> hist]
 =============================================================================
